@@ -55,7 +55,10 @@ FINISH = dict(
          "the removed binding put back / only its algorithm changed, an endpoint leaving the configuration and "
          "coming back (a URL counts as stored when the file OR the harness's memory says so), CAs that shape "
          "account objects like Boulder and send type-only problem documents, scripted faults (refused / lost "
-         "newAccount, endless accountDoesNotExist) on the re-registration path followed by another attempt. non-trivial "
+         "newAccount, endless accountDoesNotExist) on the re-registration path followed by another attempt; a keyChange "
+         "/ contact update the CA processes whose answer is lost, then further renewals and a restart (one and two "
+         "endpoints, with a contact edit): every renewal of those histories judged by Spec.C11Lost.holds (c11_judge_lost; "
+         "`pending` = the previous renewal on that endpoint left a keyChange request unanswered). non-trivial "
          "(A) = at least one endpoint or superseded key; (B) = a renewal preceded by an edit or amnesia. "
          "M (py/ext/accountmulti.py): one account with 2..3 endpoints (one mock CA each) held in one probe process; "
          "histories (catalogue + random, 3..8 steps) of edits / restarts / amnesia / synchronisations of one named "
@@ -726,9 +729,25 @@ def catalogue(thorough):
             ("rsa4096", "1c1e", i0, [R1, {"do": "key", "value": "rsa4096"}, R1]),
             ("forget-other-endpoint", "2c2e", i0, [R1, R2, {"do": "forget", "ep": "epB"}, {"do": "contacts", "value": b}, R1, R2]),
         ]
+    # an account request the CA PROCESSES whose answer is lost, then further renewals and a restart.  Every renewal
+    # of these histories is judged by Spec.C11Lost.holds (driver op c11_judge_lost): after a keyChange request that
+    # got no answer, the requests up to and including the first ANSWERED one may verify under either key of the
+    # pending exchange; `pending` = the previous renewal on that endpoint left such a window open
+    LOST = lambda kind: {"kind": kind, "times": 1, "process": True, "drop": True}
+    HL = [
+        ("rollover-answer-lost", "1c1e", i0,
+         [R1, {"do": "key", "value": "ecdsa_p384"}, F(LOST("keyChange")), R1, RS, R1]),
+        ("rollover-answer-lost+contacts", "1c1e", i0,
+         [R1, {"do": "both", "contacts": b, "key": "ed25519"}, F(LOST("keyChange")), R1, R1, RS]),
+        ("rollover-answer-lost-two-endpoints", "2c2e", i0,
+         [R1, R2, {"do": "key", "value": "ecdsa_p521"}, F(LOST("keyChange")), R2, R1, RS, R1, R2]),
+        ("contact-update-answer-lost", "1c1e", i0,
+         [R1, {"do": "contacts", "value": b}, F(LOST("account")), R1, RS, R1]),
+    ]
     return [{"label": l, "layout": lay, "init": copy.deepcopy(i), "steps": copy.deepcopy(s)} for l, lay, i, s in H] + \
         [{"label": l, "layout": lay, "init": copy.deepcopy(i), "steps": copy.deepcopy(s), "ca_opts": dict(boulder)}
-         for l, lay, i, s in HB]
+         for l, lay, i, s in HB] + \
+        [{"label": l, "layout": lay, "init": copy.deepcopy(i), "steps": copy.deepcopy(s), "lost": True} for l, lay, i, s in HL]
 
 
 def ep_table(fetched):
@@ -765,6 +784,9 @@ class Run:
         self.bound_alg = {e: None for e in self.eps}
         self.gen = 0
         self.edited = False     # something happened since the last renewal (non-triviality)
+        # histories judged by Spec.C11Lost: endpoint -> the two keys of a keyChange request that got no answer, while no
+        # request has been answered since ({"old": key on record when it arrived, "new": key of its inner object})
+        self.pending = {e: None for e in self.eps}
 
     # -- configuration and files
     def write_cfg(self):
@@ -933,6 +955,7 @@ class Run:
         key_changed = self.synced_gen[ep] is not None and self.gen != self.synced_gen[ep]
         # "a URL is stored for it": what the account file says, or what this harness knows (a renewal succeeded on
         # this endpoint and its CA has not forgotten since): a record that got lost does not justify a new account
+        lost_x = self.window(ep, log, answers) if self.h.get("lost") else None
         judge_in = {"op": "c11_judge_sync", "url_stored_before": bool(url_before) or self.registered[ep],
                     "binding_changed": binding_changed,
                     "contacts_changed": contacts_changed, "key_changed": key_changed,
@@ -940,6 +963,10 @@ class Run:
                     "success": success,
                     "ca_contacts_equal": bool(held) and not held.get("forgotten") and ca_contacts == want_contacts,
                     "ca_key_is_current": bool(held) and not held.get("forgotten") and cur_jwk is not None and held.get("jwk") == cur_jwk}
+        if lost_x is not None:
+            # Spec.C11Lost.holds instead of Spec.C11.holds: the same observation + the window
+            judge_in.update(op="c11_judge_lost", pending=lost_x["pending"],
+                            reqs=[dict(q, **x) for q, x in zip(judge_in["reqs"], lost_x["reqs"])])
         # black-box clauses on top of the Lean judge
         py = []
         if not success and not fired:
@@ -999,7 +1026,33 @@ class Run:
                                      "account_requests": [{k: r[k] for k in ("kind", "signer", "alg", "answer", "outer_sig_ok", "inner_sig_ok", "status", "problem")}
                                                           for r in reqs if r["kind"] != "other" or r["answer"] != "ok"],
                                      "n_requests": len(reqs), "stderr_tail": "" if success else err[-600:]}})
-        return success or bool(fired)
+        # (a history judged with windows goes on after a failed renewal: the NEXT one is judged outside the window)
+        return success or bool(fired) or bool(self.h.get("lost"))
+
+    def window(self, ep, log, answers):
+        """For `c11_judge_lost`: whether this renewal starts inside a window, and per POST of the log `answered`
+        and `outer_sig_ok_alt` (verifies under the other key of the pending exchange); moves `self.pending[ep]`."""
+        pend = self.pending[ep]
+        out = {"pending": bool(pend), "reqs": []}
+        for e in log:
+            if e["kind"] != "req" or e["method"] != "POST":
+                continue
+            a = answers.get(e.get("gidx"))
+            answered = bool(a) and not a.get("drop")
+            alt = bool(pend) and e.get("hdr", {}).get("jwk") is None and \
+                any(self.verifies(e, pend[k]) for k in ("old", "new") if pend[k] is not None)
+            out["reqs"].append({"answered": answered, "outer_sig_ok_alt": alt})
+            if e["rk"] == "keyChange" and not answered:
+                new = None
+                try:
+                    new = json.loads(mockca.b64u_dec(json.loads(e.get("payload") or "{}")["protected"]).decode()).get("jwk")
+                except Exception:
+                    pass
+                pend = {"old": e.get("jwk_on_record"), "new": new}
+            elif answered:
+                pend = None
+        self.pending[ep] = pend
+        return out
 
     def restart(self, idx):
         self.write_cfg()
@@ -1091,6 +1144,8 @@ def hist_canon(h):
     c = {"layout": h["layout"], "init": h["init"], "steps": h["steps"]}
     if h.get("ca_opts"):
         c["ca_opts"] = h["ca_opts"]
+    if h.get("lost"):
+        c["lost"] = True
     return c
 
 
@@ -1169,6 +1224,12 @@ def run_histories(ctx, root, hists, tag="B"):
                 ctx.count(tag + ":renewal:binding-changed")
             if ji["contacts_changed"] and ji["key_changed"]:
                 ctx.count(tag + ":renewal:both-changed")
+            if ji["op"] == "c11_judge_lost":
+                # judged by Spec.C11Lost.holds
+                ctx.count(tag + ":lost-judge:renewal:%s" % ("starts-inside-a-window" if ji["pending"] else
+                                                            "leaves-a-window-open" if v.get("window_after") else "no-window"))
+                ctx.count(tag + ":lost-judge:admitted-only-by-the-window",
+                          int(bool(v.get("signers_ok")) and v.get("signers_ok_strict") is False))
             failed = [k for k in ("register_only_when", "signers_ok", "one_per_item", "binding_then_contacts",
                                 "key_before_contacts", "converged")
                       if v.get(k) is False]
@@ -1177,7 +1238,11 @@ def run_histories(ctx, root, hists, tag="B"):
                 if "register_only_when" in failed:
                     why.append("an account was created although a URL was stored, the CA knew it and the binding was unchanged")
                 if "signers_ok" in failed:
-                    why.append("a request was not signed by the right key / did not verify under the key the CA holds")
+                    why.append("a request was not signed by the right key / did not verify under the key the CA holds" +
+                               (" (Spec.C11Lost: %s)" % ("nor, up to the first answered request after the unanswered keyChange, "
+                                                         "under the other key of that exchange" if ji["pending"] else
+                                                         "no keyChange request is unanswered when this renewal starts")
+                                if ji["op"] == "c11_judge_lost" else ""))
                 if "one_per_item" in failed:
                     why.append("not exactly one update per changed item (contacts changed=%s, key changed=%s)" % (
                         ji["contacts_changed"], ji["key_changed"]))
